@@ -13,7 +13,7 @@ func init() {
 	core.Register(&core.Property{
 		ID:    "C06",
 		Level: "exploration",
-		Rule: "random histories over schema K combining unique/set/fk indexes, fk constraints, link and ref-counted link collections and plain + extended child stores; after every committed delete " +
+		Rule: "part (d) (two stores joined only by a ref-counted link collection) also gives each store a unique index over a non-string field (int64, datetime). Random histories over schema K combining unique/set/fk indexes, fk constraints, link and ref-counted link collections and plain + extended child stores; after every committed delete " +
 			"(including every entity of its cascade closure) an independent scan of the whole bolt file looks for the id as key, type-tagged key, value or type-tagged value; with p=0.6 the id is re-created " +
 			"and the structural monitor verifies it carries no inherited index entries, links, back references or child data; Part (b): one parent with two sibling child stores (own unique and set indexes; the second plain or extended), ids with data in one, the other or both, deleted through the parent or either child store, judged by the same whole-file scan without a model (and an operation that returned an error changed nothing). non-trivial = distinct (configuration, store, indexed?, referenced-from?, linked?, rc-linked?, child data kind) classes of deleted entities",
 		Assumptions: []string{"ids are disjoint from every value pool, so a hit is a trace of the entity", "under CascadeCreateUpdate dangling boss references are declared behaviour and excluded"},
